@@ -33,6 +33,16 @@ UNIT_TIMEOUT_S = 1200
 ATOMS = ["null", "boolean", "int", "long", "float", "double", "bytes", "string", family.E(), family.F()]
 
 
+def has_nonfinite(d):
+    if isinstance(d, float):
+        return not math.isfinite(d)
+    if isinstance(d, dict):
+        return any(has_nonfinite(v) for v in d.values())
+    if isinstance(d, (list, tuple)):
+        return any(has_nonfinite(v) for v in d)
+    return False
+
+
 def finite_ok(node, defs, d):
     n = names.deref(node, defs)
     k = n["k"]
@@ -250,7 +260,7 @@ def units(tier):
     return many + [("family", i) for i in range(n)] + [("context", i) for i in range(0, len(ctx), 20)] + [("special", i) for i in range(len(SPECIAL))]
 
 
-def check_list(fa, res, raw, parsed, node, defs, recs, union_type, seen, label=""):
+def check_list(fa, res, raw, parsed, node, defs, recs, union_type, seen, label="", skip_text=False):
     kk = (key(recs), union_type)
     if kk in seen:
         return
@@ -296,7 +306,7 @@ def check_list(fa, res, raw, parsed, node, defs, recs, union_type, seen, label="
     except Exception as e:
         res.add(Violation("c15.text", "output-not-json-lines", f"output is not one JSON document per line: {e}: {text[:200]!r} | {short(info, 300)}", info))
         return
-    if len(got) != len(want) or not all(num_equal(a, b) for a, b in zip(got, want)):
+    if not skip_text and (len(got) != len(want) or not all(num_equal(a, b) for a, b in zip(got, want))):
         res.add(Violation("c15.text", f"json-encoding-differs:{_tag(label, recs, None)}", f"json_writer emitted {short(got, 300)}, the specification's JSON encoding is {short(want, 300)} | {short(info, 300)}", info))
         return
     if not union_type:
@@ -442,6 +452,11 @@ def run_schema(fa, res, raw, data, seen, label):
     except Exception as e:
         res.add(Violation("c15.parse", f"schema-rejected:{type(e).__name__}", f"{e} | {short(raw, 300)}", {"schema": raw, "records": [], "write_union_type": True, "label": label}))
         return
+    # non-finite floats: the specification's JSON encoding says nothing about them, so the TEXT is not judged - but what
+    # json_writer emits for them json_reader must read back, and agree with the binary codec
+    nonfinite = [d for d in data if not finite_ok(node, defs, d) and has_nonfinite(d)][:12]
+    for d in nonfinite:
+        check_list(fa, res, raw, parsed, node, defs, [d], True, seen, label, skip_text=True)
     data = [d for d in data if finite_ok(node, defs, d)]
     for ut in (True, False):
         check_list(fa, res, raw, parsed, node, defs, [], ut, seen, label)
